@@ -12,10 +12,12 @@ verus! {
 
 pub open spec fn strictly_increasing(s: Seq<u32>) -> bool { forall|i: int, j: int| 0 <= i < j < s.len() ==> s[i] < s[j] }
 pub open spec fn non_decreasing(s: Seq<u32>) -> bool { forall|i: int, j: int| 0 <= i <= j < s.len() ==> s[i] <= s[j] }
+#[verifier::opaque]
 pub open spec fn same_set(a: Seq<u32>, b: Seq<u32>) -> bool {
     (forall|i: int| 0 <= i < a.len() ==> b.contains(#[trigger] a[i])) && (forall|i: int| 0 <= i < b.len() ==> a.contains(#[trigger] b[i]))
 }
 /// the non-zero members of `s`, as a set
+#[verifier::opaque]
 pub open spec fn nonzero_members(s: Seq<u32>, r: Seq<u32>) -> bool {
     (forall|i: int| 0 <= i < r.len() ==> (#[trigger] r[i]) != 0 && s.contains(r[i]))
     && (forall|i: int| 0 <= i < s.len() ==> ((#[trigger] s[i]) != 0 ==> r.contains(s[i])))
@@ -24,7 +26,7 @@ pub open spec fn nonzero_members(s: Seq<u32>, r: Seq<u32>) -> bool {
 // `zooms.iter().copied().filter(|z| *z != 0).collect()` (iterator chain, outside Verus): verified stand-in,
 // substituted for exactly that text
 pub fn nonzero_copy(v: &Vec<u32>) -> (r: Vec<u32>)
-    ensures nonzero_members(v@, r@),
+    ensures nonzero_members(v@, r@), forall|k: int| 0 <= k < r@.len() ==> (#[trigger] r@[k]) != 0,
 {
     let mut out: Vec<u32> = Vec::new();
     let mut i: usize = 0;
@@ -49,6 +51,7 @@ pub fn nonzero_copy(v: &Vec<u32>) -> (r: Vec<u32>)
         }
         i = i + 1;
     }
+    proof { reveal(nonzero_members); }
     out
 }
 // slice::sort_unstable / Vec::dedup on u32: assumed std contracts (no vstd spec)
@@ -67,6 +70,30 @@ pub fn dedup_u32(v: &mut Vec<u32>)
         non_decreasing(old(v)@) ==> strictly_increasing(final(v)@),
 { v.dedup() }
 
+/// membership is carried through steps that keep the member set (sorting, de-duplicating)
+pub proof fn lemma_members_through(s: Seq<u32>, a: Seq<u32>, b: Seq<u32>)
+    requires nonzero_members(s, a), same_set(a, b),
+    ensures nonzero_members(s, b), forall|i: int| 0 <= i < b.len() ==> (#[trigger] b[i]) != 0,
+{
+    reveal(nonzero_members); reveal(same_set);
+    assert forall|i: int| 0 <= i < b.len() implies (#[trigger] b[i]) != 0 && s.contains(b[i]) by {
+        assert(a.contains(b[i]));
+        let j = choose|j: int| 0 <= j < a.len() && a[j] == b[i];
+        assert(a[j] != 0 && s.contains(a[j]));
+    }
+    assert forall|i: int| 0 <= i < s.len() implies ((#[trigger] s[i]) != 0 ==> b.contains(s[i])) by {
+        if s[i] != 0 {
+            assert(a.contains(s[i]));
+            let j = choose|j: int| 0 <= j < a.len() && a[j] == s[i];
+            assert(b.contains(a[j]));
+        }
+    }
+}
+pub proof fn lemma_members_nonzero(s: Seq<u32>, r: Seq<u32>)
+    requires nonzero_members(s, r),
+    ensures forall|i: int| 0 <= i < r.len() ==> (#[trigger] r[i]) != 0,
+{ reveal(nonzero_members); }
+pub proof fn lemma_same_set_refl(a: Seq<u32>) ensures same_set(a, a) { reveal(same_set); }
 pub proof fn lemma_strict(s: Seq<u32>)
     requires non_decreasing(s), no_adjacent_repeat(s),
     ensures strictly_increasing(s),
@@ -78,6 +105,7 @@ pub proof fn lemma_strict(s: Seq<u32>)
 }
 
 //@extract fn bigtools/src/bbi/bbiwrite.rs write_zoom_vals
+//@rule R16
 //@presub /\A.*?Some\(zooms\) => (\{.*?\n        \}|[^\n]*?),?\n\s*None => zoom_counts.*\Z/ => fn manual_zoom_list(zooms: &Vec<u32>) -> Vec<u32> {\n    \1\n} min=1 count=1
 //@sub /zooms\.iter\(\)\.copied\(\)\.filter\(\|z\| \*z != 0\)\.collect\(\)/ => nonzero_copy(zooms) min=0
 //@sub /zooms\.iter\(\)\.copied\(\)\.collect\(\)/ => zooms.clone() min=0
@@ -94,6 +122,16 @@ pub proof fn lemma_strict(s: Seq<u32>)
         forall|i: int| 0 <= i < r@.len() ==> (#[trigger] r@[i]) != 0,
         [[L: exactly_the_requested_nonzero_sizes]]
         nonzero_members(zooms@, r@),
+//@open
+    let ghost given = zooms@;
+//@at /sort_unstable_u32\(&mut zooms\);/ before optional
+            let ghost before_sort = zooms@;
+//@at /sort_unstable_u32\(&mut zooms\);/ after optional
+            proof { lemma_members_through(given, before_sort, zooms@); }
+//@at /dedup_u32\(&mut zooms\);/ before optional
+            let ghost before_dedup = zooms@;
+//@at /dedup_u32\(&mut zooms\);/ after optional
+            proof { if nonzero_members(given, before_dedup) { lemma_members_through(given, before_dedup, zooms@); } }
 //@end
 
 // ---- the threshold the automatic branch starts from: `let min_first_zoom_size = ..;` (first statement) ----
@@ -104,6 +142,7 @@ pub fn sat_mul_u32(a: u32, b: u32) -> (r: u32)
     ensures r as int == (if a as int * b as int <= u32::MAX as int { a as int * b as int } else { u32::MAX as int }),
 { a.saturating_mul(b) }
 //@extract fn bigtools/src/bbi/bbiwrite.rs write_zoom_vals
+//@rule R16
 //@presub /\A.*?\n[ \t]*(let min_first_zoom_size = [^;]*;).*\Z/ => fn min_first_zoom(average_size: u32) -> u32 {\n    \1\n    min_first_zoom_size\n} min=1 count=1
 //@sub /(\w+)\.max\((\d+)\)/ => max_u32(\1, \2) min=0
 //@sub /(max_u32\([^()]*\)|\w+)\.saturating_mul\((\d+)\)/ => sat_mul_u32(\1, \2) min=0
